@@ -253,8 +253,9 @@ class Outcome:
         self.cov["known_findings_confirmed"] = [k[0] for k in self.known]
         if not self.cov["samples"]:
             self.cov["samples"] = ["(none)"]
-        os.makedirs(os.path.join(ROOT, "evidence"), exist_ok=True)
-        json.dump(ev, open(os.path.join(ROOT, "evidence", self.prop + ".json"), "w"), indent=1)
+        evdir = os.path.join(WORK, "evidence-extra") if getattr(self, "extra", False) else os.path.join(ROOT, "evidence")
+        os.makedirs(evdir, exist_ok=True)
+        json.dump(ev, open(os.path.join(evdir, self.prop + ".json"), "w"), indent=1)
         for fid, what in self.known:
             log("KNOWN-FINDING: property=%s %s: %s" % (self.prop, fid, what))
         for v in self.violations[:20]:
